@@ -394,6 +394,35 @@ func (ip *Interp) registerIntrinsics() {
 		return ip.callSSA(fr, mp.Func("Combine"), []Value{Slice{Base: append([]Value{}, errs...), Len: len(errs), Cap: len(errs)}}, nil)
 	}
 
+	// ---- gen.sortStringKeys: reflect-based in the source; summary: the keys of
+	// the map (in the model's association order), sorted by the real sort.Strings ----
+	in["go.uber.org/thriftrw/gen.sortStringKeys"] = func(ip *Interp, fr *frame, args []Value) Value {
+		m, ok := args[0].(Iface)
+		if !ok || m.T == nil {
+			ip.oom("sortStringKeys of a nil interface")
+		}
+		mo, ok := m.V.(*MapObj)
+		if !ok {
+			ip.oom("sortStringKeys of %T", m.V)
+		}
+		var keys []Value
+		if mo != nil {
+			for _, k := range mo.Keys {
+				if _, isStr := k.(Str); !isStr {
+					ip.oom("sortStringKeys: key %T", k)
+				}
+				keys = append(keys, copyVal(k))
+			}
+		}
+		sl := Slice{Base: keys, Len: len(keys), Cap: len(keys)}
+		sp := ip.prog.ImportedPackage("sort")
+		if sp == nil {
+			ip.oom("sort not loaded")
+		}
+		ip.callSSA(fr, sp.Func("Strings"), []Value{sl}, nil)
+		return sl
+	}
+
 	// ---- strconv.ParseFloat on symbolic digits ----
 	in["strconv.ParseFloat"] = func(ip *Interp, fr *frame, args []Value) Value {
 		s := ip.concStr(args[0].(Str))
